@@ -31,7 +31,8 @@ META = {
     "technique": "static analysis: census of scenario-index expressions at every attribute-protocol access, freshness of per-scenario stores, order/dominance in the scenario loop",
     "explanation": "Every attribute-protocol access in scheduling-reachable code is classified by its scenario-index "
                    "expression; per-scenario stores of mutable scheduling state must be fresh copies; the scenario loop "
-                   "runs prepare/schedule/finish with one index and prepare reaches the reset of every task and resource.",
+                   "runs prepare/schedule/finish with one index and prepare reaches the reset of every task and resource."
+                   " Also: exits of the scenario loop and post-dominance of finishScenario, completeness / aliasing of Limit.copy, the shared-container census, binding of defaulted scenario parameters, per-scenario loops that run to completion, scenario indices never tested for truthiness, and propagation of an override to nested scenarios.",
     "assumptions": [],
 }
 
